@@ -537,6 +537,10 @@ func runCheck(id, tier string) int {
 			if rr.Panic != "" && strings.HasSuffix(c.Obligation, ".uncaught-panic") {
 				reproduced = true
 			}
+			if strings.HasSuffix(c.Obligation, ".deadlock") && (strings.HasPrefix(rr.Panic, "timeout:") || rr.Note == "process exit" || len(rr.Failures) > 0) {
+				// natively a deadlocked run does not terminate (or the runtime kills it)
+				reproduced = true
+			}
 			detail = fmt.Sprintf("native: failures=%v assume_failed=%v panic=%q %s", rr.Failures, rr.Assume, rr.Panic, rr.Note)
 		}
 		switch {
